@@ -402,3 +402,41 @@ package constraint
 //@   ensures len(c.typeNames) == old(len(c.typeNames)) + 1 && c.typeNames[old(len(c.typeNames))] == typ
 //@   ensures len(c.elementASTNodes) == old(len(c.elementASTNodes)) + 1
 //@   ensures c.hasUserTypes == (old(c.hasUserTypes) || name[0] == '@')
+
+//@ func (TypeConstraint).Bytes()
+//@   props C08
+//@   nopanic
+//@   ensures result == c.value
+//@ func (TypeConstraint).IsGenerated()
+//@   props C08
+//@   nopanic
+//@   ensures result == (c.source == jschema.RuleASTNodeSourceGenerated)
+//@ func (Or).IsGenerated()
+//@   props C08
+//@   nopanic
+//@   ensures result == (c.source == jschema.RuleASTNodeSourceGenerated)
+
+//@ interface ArrayValidator.Value(self)
+//@   requires typeis(self, *MinItems) || typeis(self, *MaxItems) || typeis(self, MinItems) || typeis(self, MaxItems)
+//@   pure
+//@   ensures result == (typeis(self, *MinItems) ? unbox(self, *MinItems).value : (typeis(self, MinItems) ? unbox(self, MinItems).value : (typeis(self, *MaxItems) ? unbox(self, *MaxItems).value : unbox(self, MaxItems).value)))
+//@ func (MinItems).Value()
+//@   props C08
+//@   implements ArrayValidator.Value
+//@   ensures result == c.value
+//@ func (MaxItems).Value()
+//@   props C08
+//@   implements ArrayValidator.Value
+//@   ensures result == c.value
+
+//@ func NewRequiredKeys()
+//@   props C01
+//@   nopanic
+//@   ensures fresh(result) && len(result.keys) == 0 && (result.keys.$arr == 0 || result.keys.$arr > old(alloc))
+//@ func (*RequiredKeys).AddKey(key)
+//@   props C01
+//@   requires c != nil
+//@   nopanic
+//@   modifies c.keys, c.keys[*]
+//@   ensures len(c.keys) == old(len(c.keys)) + 1 && c.keys[old(len(c.keys))] == key
+//@   ensures forall j :: 0 <= j && j < old(len(c.keys)) ==> c.keys[j] == old(c.keys[j])
